@@ -1,15 +1,19 @@
 (* C10 - SPARQL Update changes the dataset exactly as the Update semantics
    prescribe.  Property theorems only; proofs are in Update/{Proofs,Ops,Seq}.v.
+   The model is the code after the "fix:" commits for F5 and F10a,b,c,d,e,g,h.
 
    Reading guide.  [eval_op e k o s] is the model of the k-th operation of a
    request run through front end [e_fe e] (Graph / ConjunctiveGraph / Dataset)
-   with the default-graph-union switch [e_union e]; [s] = quad set + known
-   graph names; the WHERE clause is the solution list inside [o].  [a] is any
-   list that is the same *set* of quads as the store content.  [dflt e] is the
-   default graph of the Graph Store the front end exposes, [scope e o] says
-   that the front end has named graphs or the operation needs none, [op_kf]
-   is the known-finding trigger (0 = none: F10a..F10g, see notes/C10.md),
-   [kinv] the store invariant "every graph holding a quad is known". *)
+   with the default-graph-union switch [e_union e] - every theorem below holds
+   for all three front ends and both settings of the switch ([e] is universally
+   quantified; the switch only decides which solution lists WHERE produces, and
+   those are inputs): writes outside GRAPH always go to the real default graph
+   [dflt e].  [s] = quad set + known graph names; [a] is any list that is the
+   same *set* of quads as the store content.  [scope e o] says that the front
+   end has named graphs or the operation needs none (a plain Graph is a store
+   with one graph).  [op_kf] is the known-finding trigger (only F10f is left:
+   DELETE WHERE { GRAPH ?g {..} }), [kinv] the store invariant "every graph
+   holding a quad is known". *)
 From RV Require Import Update.Model Update.Proofs Update.Ops Update.Seq.
 Local Open Scope N_scope.
 
@@ -40,7 +44,7 @@ Print Assumptions C10_iso_eqb_complete_on_equal_sets.
 
 (* One operation = its section-3 transformer. *)
 Theorem C10_step : forall e k o s a,
-  scope e o -> op_kf e k o = 0 -> op_wf o = true -> kinv s -> qseteq (quads s) a ->
+  scope e o -> op_kf e k o = 0 -> kinv s -> qseteq (quads s) a ->
   exists s', eval_op e k o s = Ok s' /\ qseteq (quads s') (spec_op e k o a) /\ kinv s'.
 Proof. exact step_correct. Qed.
 Print Assumptions C10_step.
@@ -66,7 +70,7 @@ Proof. exact data_quads_In. Qed.
 Print Assumptions C10_data_quads.
 
 Theorem C10_delete_where : forall e k s a, kinv s -> qseteq (quads s) a -> forall tm om,
-  scope e (DeleteWhere tm om) -> op_kf e k (DeleteWhere tm om) = 0 -> no_bnode tm = true ->
+  scope e (DeleteWhere tm om) -> op_kf e k (DeleteWhere tm om) = 0 ->
   exists s', eval_op e k (DeleteWhere tm om) s = Ok s' /\ kinv s' /\
     forall q, In q (quads s') <-> In q a /\ ~ In q (s_all e false k (dflt e) (Some tm) om).
 Proof. exact delete_where_reading. Qed.
@@ -78,7 +82,6 @@ Print Assumptions C10_delete_where.
    names and (insertions) illegal triples are skipped by [s_all]. *)
 Theorem C10_modify : forall e k s a, kinv s -> qseteq (quads s) a -> forall w ud un d i om,
   scope e (Modify w ud un d i om) -> op_kf e k (Modify w ud un d i om) = 0 ->
-  op_wf (Modify w ud un d i om) = true ->
   let dg := match w with Some c => c | None => dflt e end in
   exists s', eval_op e k (Modify w ud un d i om) s = Ok s' /\ kinv s' /\
     forall q, In q (quads s') <->
@@ -90,7 +93,7 @@ Print Assumptions C10_modify.
    does not have the property: swapping ?s p ?o -> ?o p ?s on the 2-cycle
    {(1 p 2), (2 p 1)} must leave the graph unchanged; the old loop loses a triple. *)
 Theorem C10_modify_prefix_refuted :
-  qseteqb (quads (evalModify_prefix 0 0 (Some swap_del) (Some swap_ins) swap_omega swap_init))
+  qseteqb (quads (evalModify_prefix swap_env 0 0 (Some swap_del) (Some swap_ins) swap_omega swap_init))
           (spec_op swap_env 0 (Modify None false false (Some swap_del) (Some swap_ins) swap_omega)
                    (quads swap_init)) = false
   /\ qseteqb (spec_op swap_env 0 (Modify None false false (Some swap_del) (Some swap_ins) swap_omega)
@@ -168,38 +171,65 @@ Theorem C10_untouched_modify : forall e k w ud un d i om a c,
 Proof. exact spec_untouched_modify. Qed.
 Print Assumptions C10_untouched_modify.
 
-(* Fresh blank nodes: the supply is injective in (operation, solution, block,
-   label), every name is >= 1000 and lies in the window of its operation, so
-   it differs from every term of a store whose terms are below that window
-   (pool terms are < 1000, earlier operations use earlier windows); the
-   specification names one node per (operation, solution, label). *)
-Theorem C10_fresh_bnodes_partial : forall k i j x k' i' j' x',
-  i < 256 -> j < 256 -> x < 256 -> i' < 256 -> j' < 256 -> x' < 256 ->
-  (fresh k i j x = fresh k' i' j' x' -> k = k' /\ i = i' /\ j = j' /\ x = x')
-  /\ FRESH + k * 16777216 <= fresh k i j x < FRESH + (k + 1) * 16777216.
-Proof.
-  intros. split; [apply fresh_inj; auto|apply fresh_window; auto].
-Qed.
-Print Assumptions C10_fresh_bnodes_partial.
+(* Fresh blank nodes.  [fresh k i x] is the node for label x in solution i of
+   operation k (one node per label and solution, shared by all blocks of the
+   template: [s_quads] and the model both instantiate with [fresh k i]).
+   Supply hypothesis [older (window k) a]: every term of the store is below the
+   window of operation k.  Then the node is distinct from every term of D, and
+   different (solution, label) pairs get different nodes. *)
+Theorem C10_fresh_bnodes : forall k a, older (window k) a -> forall i x, i < 256 -> x < 65536 ->
+  (forall q, In q a -> ~ In (fresh k i x) (triple_terms (fst q)))
+  /\ forall i' x', i' < 256 -> x' < 65536 -> fresh k i x = fresh k i' x' -> i = i' /\ x = x'.
+Proof. exact fresh_bnodes. Qed.
+Print Assumptions C10_fresh_bnodes.
+
+(* ... and the stores the hypothesis allows include every store a request
+   reaches: if the constants and bound values of operation k are terms in use
+   before it (at most 256 solutions, labels below 65536), the hypothesis holds
+   again for operation k+1. *)
+Theorem C10_fresh_supply_preserved : forall e k o a,
+  op_bounded (window k) o -> older (window k) a -> older (window (k + 1)) (spec_op e k o a).
+Proof. exact older_step. Qed.
+Print Assumptions C10_fresh_supply_preserved.
+
+(* the switch is irrelevant to every evaluator: writes outside GRAPH go to the
+   real default graph whatever it says *)
+Theorem C10_switch_irrelevant : forall e u k o s,
+  eval_op {| e_fe := e_fe e; e_union := u; e_lits := e_lits e; e_bnodes := e_bnodes e |} k o s
+  = eval_op e k o s.
+Proof. exact eval_op_union. Qed.
+Print Assumptions C10_switch_irrelevant.
+
+(* DELETE DATA as it was before the fix of F10a (switch on): the triple also
+   left the named graph *)
+Theorem C10_deldata_prefix_union_refuted :
+  let s := {| quads := [((1, 3, 2), 0); ((1, 3, 2), 1)]; known := [0; 1] |} in
+  qseteqb (quads (deldata_prefix_union [(1, 3, 2)] s))
+          (spec_op swap_env 0 (DeleteData [(1, 3, 2)] []) (quads s)) = false.
+Proof. exact deldata_prefix_union_refuted. Qed.
+Print Assumptions C10_deldata_prefix_union_refuted.
 
 (* Operations of one request run in order: the request is the composition of
    the transformers; nothing is skipped, nothing fails. *)
 Theorem C10_sequence : forall e ops k s a,
   has_dataset e = true \/ forallb (fun o => negb (needs_dataset o)) ops = true ->
-  kf_from e k ops = 0 -> forallb op_wf ops = true -> kinv s -> qseteq (quads s) a ->
+  kf_from e k ops = 0 -> kinv s -> qseteq (quads s) a ->
   exists s', eval_from e k ops s = Ok s' /\ qseteq (quads s') (spec_from e k ops a) /\ kinv s'.
 Proof. exact sequence_correct. Qed.
 Print Assumptions C10_sequence.
 
-(* non-vacuity: the swap request on the 2-cycle through a Dataset with the
-   switch off is in scope, outside every trigger, and accepted *)
+(* non-vacuity: through a Dataset with the switch ON (the default): the swap on
+   the 2-cycle, a DELETE DATA outside GRAPH that must leave graph 1 alone, COPY
+   and CLEAR DEFAULT; in scope, no trigger, accepted *)
 Example C10_nonvacuous :
-  let c := {| c_env := swap_env; c_quads := quads swap_init; c_known := [0];
+  let c := {| c_env := {| e_fe := FDS; e_union := true; e_lits := []; e_bnodes := [] |};
+              c_quads := [((1, 3, 2), 0); ((2, 3, 1), 0); ((1, 3, 2), 1)]; c_known := [0; 1];
               c_ops := [Modify None false false (Some swap_del) (Some swap_ins) swap_omega;
-                        Copy false DDefault (DIri 1); Clear false GDefault] |} in
+                        DeleteData [(1, 3, 2)] [];
+                        Copy false DDefault (DIri 5); Clear false GDefault] |} in
   wf c /\ kf c = 0 /\ in_scope (c_env c) (c_ops c) = true
-  /\ model_obs c = ([((2, 3, 1), 1); ((1, 3, 2), 1)], [1], false).
+  /\ model_obs c = ([((1, 3, 2), 1); ((2, 3, 1), 5)], [1; 5], false).
 Proof.
-  simpl. split; [split; [intros q [<-|[<-|[]]]; simpl; auto|reflexivity]|].
+  simpl. split; [intros q [<-|[<-|[<-|[]]]]; simpl; auto|].
   split; [vm_compute; reflexivity|split; vm_compute; reflexivity].
 Qed.
